@@ -170,6 +170,9 @@ def run_check(mod, tier, seed, jobs=None, n_runs=None, chunk=None, per_run_timeo
     cov["workers"] = jobs
     cov["known_findings_printed"] = sorted(known)
     cov["results_digest"] = digest([(r["idx"], r["status"], r.get("vclass"), r.get("shape")) for r in done])
+    # everything a run reports (delta cycles, activations, order permutations, counters ...) except replay payloads:
+    # equal for equal (seed, run index, tree) whatever the worker count or PYTHONHASHSEED (selftest/determinism.py)
+    cov["deep_digest"] = digest([{k: v for k, v in r.items() if k != "payload"} for r in done])
     ev = {
         "property_id": prop,
         "tier": tier,
@@ -180,12 +183,13 @@ def run_check(mod, tier, seed, jobs=None, n_runs=None, chunk=None, per_run_timeo
         "wall_s": round(wall, 2),
         "violations": len(violations),
     }
-    os.makedirs(EVIDENCE_DIR, exist_ok=True)
-    with open(os.path.join(EVIDENCE_DIR, f"{prop}.json"), "w") as fh:
-        json.dump(ev, fh, indent=1, default=str)
+    if not os.environ.get("VERIF_NO_EVIDENCE"):  # self-tests run partial batches and must not overwrite the evidence
+        os.makedirs(EVIDENCE_DIR, exist_ok=True)
+        with open(os.path.join(EVIDENCE_DIR, f"{prop}.json"), "w") as fh:
+            json.dump(ev, fh, indent=1, default=str)
     for line in out_lines:
         print(line)
-    print(f"{prop} {tier} seed={seed}: runs={len(done)} violations={len(violations)} known={sum(len(v) for v in known.values())} harness_errors={len(harness_errors)} wall={wall:.1f}s digest={cov['results_digest'][:16]}")
+    print(f"{prop} {tier} seed={seed}: runs={len(done)} violations={len(violations)} known={sum(len(v) for v in known.values())} harness_errors={len(harness_errors)} wall={wall:.1f}s digest={cov['results_digest'][:16]} deep={cov['deep_digest'][:16]}")
     if harness_errors:
         for h in harness_errors[:10]:
             print("HARNESS-ERROR:", h, file=sys.stderr)
